@@ -264,6 +264,11 @@ def s7_prop(ctx, prop_id):
     if prop_id == 'C01':
         expected_probes(ctx, ['annotation-leak/Loose'])
     cases = load_cases(ctx)
+    if cases is not None and prop_id == 'C07':
+        # many memoized and fallible injectors, repeated invocations: a nil TerminalError served from the memo cache is still nil
+        mcases = load_cases(ctx, 'run', 600 if ctx.tier == 'quick' else 6000, 'memo')
+        if mcases is not None:
+            cases = cases + mcases
     if cases is not None:
         corpus = load_corpus(ctx, prop_id)
         ctx.cov['corpus_cases'] = len(corpus)
@@ -378,6 +383,20 @@ def c05(ctx):
         s7_check(ctx, 'C05', corpus + cases)
         stage_stats(ctx, cases, s1_compare, 'S1', found=True)
         for c in cases:
+            if c.ok:
+                ok, d = exec_order_ok(c)
+                if not ok:
+                    ctx.violations.append(('%s (case %s)' % (d, c.key), write_replay(ctx, 'case_%s.txt' % c.key, c.text()), True))
+    # repeated invocations that hit the memo caches (memoized and fallible injectors in the run set): a cache hit must not
+    # change who runs afterwards
+    mcases = load_cases(ctx, 'run', 600 if ctx.tier == 'quick' else 6000, 'memo')
+    if mcases is not None:
+        before = {k: v for k, v in ctx.cov.items() if isinstance(v, int)}
+        s7_check(ctx, 'C05', mcases)
+        for k, v in before.items():
+            if isinstance(ctx.cov.get(k), int) and k != 'corpus_cases':
+                ctx.cov[k] += v
+        for c in mcases:
             if c.ok:
                 ok, d = exec_order_ok(c)
                 if not ok:
@@ -655,6 +674,9 @@ def c06(ctx):
     cases = load_cases(ctx)
     if cases is not None:
         stage_stats(ctx, cases, s3_compare, 'S3')
+        # what a failing static injector makes the static chain skip (and so which static values stay visible): slot partition
+        # and zero lists against the model of bind.go
+        stage_stats(ctx, cases, s6_compare, 'S6')
         n = 0; distinct = set(); feats = collections.Counter()
         for c in cases:
             for d in c06_direct(c):
@@ -1333,9 +1355,21 @@ def probes_run(ctx):
         ctx.violations.append(('harness does not build', write_replay(ctx, 'harness_build.txt', log[-6000:]), False))
         return None
     import subprocess
-    p = subprocess.run([hb, 'probes'], stdout=subprocess.PIPE, stderr=subprocess.PIPE, text=True, timeout=600)
-    open(tag, 'w').write(p.stdout)
-    return p.stdout.split('\n')
+    lines = []; start = 0
+    for _ in range(40):
+        # (after a probe that hangs, the harness hands back "resume <k>": the rest runs in a fresh process)
+        try:
+            p = subprocess.run([hb, 'probes', '-start', str(start)], stdout=subprocess.PIPE, stderr=subprocess.PIPE, text=True, timeout=900)
+            got = p.stdout.split('\n')
+        except subprocess.TimeoutExpired:
+            got = ['probe "(probe run from number %d on)" hang: no answer from the harness within 900s' % start]
+        nxt = next((l for l in got if l.startswith('resume ')), None)
+        lines += [l for l in got if l and not l.startswith('resume ')]
+        if nxt is None:
+            break
+        start = int(nxt.split()[1])
+    open(tag, 'w').write('\n'.join(lines) + '\n')
+    return lines
 
 
 def expected_probes(ctx, prefixes):
